@@ -250,6 +250,7 @@ func vrtYield(ex *Exec, fn *ssa.Function, args []Value) []Value {
 	g.yielding = true
 	ex.reschedule()
 	g.yielding = false
+	ex.traceResume(g)
 	return nil
 }
 
@@ -264,6 +265,7 @@ func vrtQuiesce(ex *Exec, fn *ssa.Function, args []Value) []Value {
 	}
 	ex.reschedule()
 	g.quiescing = false
+	ex.traceResume(g)
 	return nil
 }
 
